@@ -19,6 +19,33 @@ PROPS = {
     },
 }
 
+PROPS["C07"] = {
+    "module": "Dnp3.Props.C07",
+    "gen": ["Link.lean"],
+    "engines": ["linkaddr"],
+    "monitors": ["acts_only_if_addressed", "broadcast_never_acked", "link_status_answered", "confirmed_once_per_toggle"],
+    "exhaustive_quick": True, "exhaustive_thorough": True,
+    "rule": "engine linkaddr: exhaustive link addressing table = 256 control octets x 7 destination classes x 4 source classes x 3 secondary states x role x self-address feature (quick: full 256 octets for every combination with a valid source or own destination, stride 5 elsewhere; thorough: all), through the real transport Reader/link Layer over the pipe; plus random confirmed-data FCB histories with resets and broadcasts",
+    "trusted_base": ["hand-written Lean transcription of Layer::process_header tied by the exhaustive table through the real Layer", "link masks/function codes/special addresses regenerated from source"],
+    "assumptions": ["application-level part (foreign master / broadcast fragments in the outstation session) is covered by the outstation engine when built"],
+    "level_text": "Lean theorems over processHeader for every control octet, address and secondary state (acts only if addressed, broadcasts never acknowledged, link status answered, confirmed data once per FCB toggle); tie: constants regenerated, exhaustive decision-table correspondence through the real link Layer",
+    "level_note": "trusted: Lean kernel, translate.py, harness; Rust modelled not verified",
+}
+PROPS["C08"] = {
+    "module": "Dnp3.Props.C08",
+    "gen": [],
+    "engines": ["transport"],
+    "monitors": ["delivered_fragment_is_contiguous_run", "well_formed_fragment_delivered_intact", "oversize_fragment_not_delivered", "writer_segments_as_specified"],
+    "exhaustive_thorough": True,
+    "rule": "engine transport: fragment lengths 1..=2048 (thorough: all x seq0 {0,1,62,63} x rx {249,250,497,498,2048}; quick: boundaries + stride 37) segmented by an independent reference segmenter and fed re-chunked to the real transport Reader; writer sequences; segment streams damaged by drop/duplicate/swap/re-address/flag-flip/broadcast-insert/interleave followed by a fresh fragment",
+    "trusted_base": ["hand-written Lean model of transport/real/{assembler,reader,writer,header,sequence}.rs tied by differential execution"],
+    "assumptions": [],
+    "level_text": "Lean theorems about the assembler/segmenter model (header octet round trip, sequence wrap, frame-id law, segment/reassemble, delivered-is-run) for all fragment lengths, sequence numbers and segment histories; tie: differential correspondence of the real Reader/Writer against the compiled model",
+    "level_note": "trusted: Lean kernel, harness; Rust modelled not verified",
+}
+
+ENGINE_MODEL = {"linkaddr": "transport"}
+
 # properties not (yet) claimed, with the reason
 NOT_APPLICABLE = {
     "C%02d" % i: "machinery for this property is not built yet in this revision (see DESIGN.md build order); no claim is made" for i in range(1, 21)
